@@ -287,6 +287,26 @@ type cntFS struct {
 	nodes map[string]*cntNode
 	calls []string
 	objs  []*cntObj
+	// contexts handed to open / opendir handler calls that returned an error (no object was created)
+	failedOpen []context.Context
+}
+
+// openFailed records the context of an open / opendir handler call that is about to return err (f.mu held).
+func (f *cntFS) openFailed(r *sftp.Request, err error) {
+	if err != nil {
+		f.failedOpen = append(f.failedOpen, r.Context())
+	}
+}
+
+// failedOpenStates reports, for every failed open / opendir in call order, whether its context is cancelled now.
+func (f *cntFS) failedOpenStates() []bool {
+	f.mu.Lock()
+	defer f.mu.Unlock()
+	out := make([]bool, len(f.failedOpen))
+	for i, c := range f.failedOpen {
+		out[i] = c.Err() != nil
+	}
+	return out
 }
 
 func newCntFS(kind string) *cntFS {
@@ -337,9 +357,10 @@ func (f *cntFS) newObj(kind, p string, n *cntNode, r *sftp.Request) *cntObj {
 
 var errCntHandler = errors.New("handler says no")
 
-func (f *cntFS) Fileread(r *sftp.Request) (io.ReaderAt, error) {
+func (f *cntFS) Fileread(r *sftp.Request) (_ io.ReaderAt, err error) {
 	f.mu.Lock()
 	defer f.mu.Unlock()
+	defer func() { f.openFailed(r, err) }()
 	f.logf("Fileread %s %s pf=%d", r.Method, r.Filepath, r.Flags)
 	if strings.Contains(r.Filepath, "err") {
 		return nil, errCntHandler
@@ -380,9 +401,10 @@ func (f *cntFS) openW(r *sftp.Request) (*cntNode, error) {
 	return n, nil
 }
 
-func (f *cntFS) Filewrite(r *sftp.Request) (io.WriterAt, error) {
+func (f *cntFS) Filewrite(r *sftp.Request) (_ io.WriterAt, err error) {
 	f.mu.Lock()
 	defer f.mu.Unlock()
+	defer func() { f.openFailed(r, err) }()
 	f.logf("Filewrite %s %s pf=%d attrs=%x", r.Method, r.Filepath, r.Flags, r.Attrs)
 	n, err := f.openW(r)
 	if err != nil {
@@ -391,9 +413,10 @@ func (f *cntFS) Filewrite(r *sftp.Request) (io.WriterAt, error) {
 	return cntWriter{f.newObj("writer", r.Filepath, n, r)}, nil
 }
 
-func (f *cntFS) OpenFile(r *sftp.Request) (sftp.WriterAtReaderAt, error) {
+func (f *cntFS) OpenFile(r *sftp.Request) (_ sftp.WriterAtReaderAt, err error) {
 	f.mu.Lock()
 	defer f.mu.Unlock()
+	defer func() { f.openFailed(r, err) }()
 	f.logf("OpenFile %s %s pf=%d attrs=%x", r.Method, r.Filepath, r.Flags, r.Attrs)
 	n, err := f.openW(r)
 	if err != nil {
@@ -422,9 +445,12 @@ func (i cntInfo) ModTime() time.Time { return time.Unix(1_000_000_000, 0) }
 func (i cntInfo) IsDir() bool        { return i.n.dir }
 func (i cntInfo) Sys() any           { return nil }
 
-func (f *cntFS) Filelist(r *sftp.Request) (sftp.ListerAt, error) {
+func (f *cntFS) Filelist(r *sftp.Request) (_ sftp.ListerAt, err error) {
 	f.mu.Lock()
 	defer f.mu.Unlock()
+	if r.Method == "List" { // OPENDIR (READDIR goes to the lister, not here)
+		defer func() { f.openFailed(r, err) }()
+	}
 	f.logf("Filelist %s %s", r.Method, r.Filepath)
 	if strings.Contains(r.Filepath, "err") {
 		return nil, errCntHandler
